@@ -17,6 +17,11 @@ Enumerated: every sequence of <= n messages over a size-chosen alphabet; for eac
 fixed read size of a list (1 = the one-byte dribble), every 2-cut over the interesting positions (all 2-cuts for
 short streams), (thorough) every 3-cut over the header-critical positions.
 
+Further harnesses on the same two receivers (each described where it is defined): controller-nicira (Nicira VENDOR
+unpacker installed), controller-live (real handshake inside the stream), switch-reconnect (loss mid-message, reconnect),
+controller-types / switch-types (every message type in every legal length form of a list, e.g. a HELLO with a body),
+controller-raising / switch-raising (the handler of chosen deliveries raises).
+
 Oracle (reference = the sender's own list of messages and their byte slices):
   after every read call  #delivered <= #messages wholly contained in the bytes received so far   (never early)
                          delivered[i] is message i: type / xid / length, and its re-packed bytes equal slice i
@@ -121,6 +126,155 @@ NICIRA = [("vendor_other_p%d" % k, (lambda k: lambda x: W.vendor(x, OTHER_VENDOR
   ("packet_in",      lambda x: S.packet_in(x, _pat(61, 2), in_port=3, buffer_id=7, reason=W.OFPR_ACTION)),
 ]
 ALPHA = {"controller": CTRL, "switch": SWITCH, "controller-nicira": NICIRA}
+
+
+# ---------------------------------------------------------------------------------------------------
+# type sweep: every OpenFlow 1.0 message type a side can legally be sent, in every legal LENGTH FORM of a list
+# ---------------------------------------------------------------------------------------------------
+# The readers trust the unpacker of the message's type to report the offset behind the WHOLE message.  The size-
+# chosen alphabets above hold one form of a few types; here every type is swept, each in its minimal form and with
+# its variable part (body / data / element list) empty, short, odd-sized and longer - among them the forms the
+# specification allows but pox itself never produces: a HELLO with a body ("implementations must be prepared to
+# receive a hello message that includes a body, ignoring its contents", 5.5.1; on the controller side also the
+# version-4 HELLO with a version bitmap that Connection.read lets through by design), ECHO / ERROR / VENDOR /
+# PACKET_IN / PACKET_OUT with 0 data bytes, stats replies with 0 entries, a queue with no properties.
+# Each entry: name -> (encoder, strict).  strict=False: the delivered object is compared by type and xid only
+# (libopenflow does not keep the bytes: it drops a HELLO's body by design) - every neighbour stays strict.
+def _table_stats_entry (table_id, name=b"t"):
+  # struct ofp_table_stats: table_id, pad[3], name[32], wildcards, max_entries, active_count, lookup_count, matched_count
+  return struct.pack("!B3x32sLLLQQ", table_id, name, W.OFPFW_ALL, 1000, 2, 3, 4)
+
+def _queue_stats_entry (port_no, queue_id):
+  # struct ofp_queue_stats: port_no, pad[2], queue_id, tx_bytes, tx_packets, tx_errors
+  return struct.pack("!H2xLQQQ", port_no, queue_id, 5, 6, 7)
+
+def _packet_queue (queue_id, props=b""):
+  # struct ofp_packet_queue: queue_id, len, pad[2], properties[]
+  return struct.pack("!LH2x", queue_id, 8 + len(props)) + props
+
+def _qprop_min_rate (rate):
+  # struct ofp_queue_prop_min_rate: prop header (property=1, len=16, pad[4]), rate, pad[6]
+  return struct.pack("!HH4xH6x", 1, 16, rate)
+
+def _queue_get_config_reply (xid, port, queues=b""):
+  # struct ofp_queue_get_config_reply: header, port, pad[6], queues[]
+  return W.msg(W.QUEUE_GET_CONFIG_REPLY, xid, struct.pack("!H6x", port) + queues)
+
+def _hello_body (xid, body, version=1):
+  return struct.pack("!BBHL", version, W.HELLO, 8 + len(body), xid) + body
+
+_VERSION_BITMAP = struct.pack("!HHL", 1, 8, 0x00000012)         # OFPHET_VERSIONBITMAP: versions 1 and 4
+_PORT = lambda n: W.phy_port(n, b"\x02\0\0\0\0" + bytes([n]), b"p%d" % n, state=1, curr=0x82)
+_MIXED_ACTIONS = W.a_set_vlan_vid(7) + W.a_set_dl_src(b"\x02\0\0\0\0\x09") + W.a_output(3, 0)   # 8 + 16 + 8
+# one action of every OpenFlow 1.0 type and a vendor action with 8 data bytes (8- and 16-byte actions interleaved)
+_ALL_ACTIONS = (W.a_set_vlan_vid(7) + W.a_set_vlan_pcp(3) + W.a_strip_vlan() + W.a_set_dl_src(b"\x02\0\0\0\0\x09") +
+                W.a_set_dl_dst(b"\x02\0\0\0\0\x0a") + W.a_set_nw_src(0x0a000003) + W.a_set_nw_dst(0x0a000004) +
+                W.a_set_nw_tos(0x20) + W.a_set_tp_src(1000) + W.a_set_tp_dst(2000) + W.a_vendor(OTHER_VENDOR, _pat(8, 18)) +
+                W.a_enqueue(2, 1) + W.a_output(3, 0))
+
+def _sweep_common ():
+  T = {}
+  for k in (1, 4, 7, 8, 16):
+    T["hello_body%d" % k] = ((lambda k: lambda x: _hello_body(x, _VERSION_BITMAP if k == 8 else _pat(k, 9)))(k), False)
+  for k in (0, 1, 7, 8, 64):
+    T["echo_request_data%d" % k] = ((lambda k: lambda x: W.echo_request(x, _pat(k, 10)))(k), True)
+  for k in (0, 5):
+    T["echo_reply_data%d" % k] = ((lambda k: lambda x: W.echo_reply(x, _pat(k, 11)))(k), True)
+  for k in (0, 1, 8, 64):
+    T["error_data%d" % k] = ((lambda k: lambda x: S.error(x, W.OFPET_BAD_REQUEST, W.OFPBRC_BAD_LEN, _pat(k, 12)))(k), True)
+  for k in (0, 1, 4, 8):
+    T["vendor_data%d" % k] = ((lambda k: lambda x: W.vendor(x, OTHER_VENDOR, _pat(k, 13)))(k), True)
+  return T
+
+def _sweep_ctrl ():
+  T = _sweep_common()
+  T["hello_v4_body0"] = (lambda x: _hello_body(x, b"", 4), False)
+  T["hello_v4_bitmap"] = (lambda x: _hello_body(x, _VERSION_BITMAP, 4), False)
+  for k in (0, 1, 3):
+    T["features_reply_ports%d" % k] = ((lambda k: lambda x: S.features_reply(x, 0xC02, [_PORT(i + 1) for i in range(k)]))(k), True)
+  T["get_config_reply"] = (lambda x: S.get_config_reply(x, 0, 128), True)
+  for k in (0, 1, 14):
+    T["packet_in_data%d" % k] = ((lambda k: lambda x: S.packet_in(x, _pat(k, 14), in_port=2, buffer_id=9, total_len=60))(k), True)
+  T["flow_removed"] = (dict(CTRL)["flow_removed"], True)
+  T["port_status"] = (dict(CTRL)["port_status"], True)
+  T["barrier_reply"] = (lambda x: S.barrier_reply(x), True)
+  T["stats_reply_desc"] = (lambda x: S.stats_reply(x, W.OFPST_DESC, S.desc_stats_body()), True)
+  fe = S.flow_stats_entry(_EXACT, _OUT, cookie=9, packet_count=1)
+  T["stats_reply_flow0"] = (lambda x: S.stats_reply(x, W.OFPST_FLOW, b""), True)
+  T["stats_reply_flow2"] = (lambda x: S.stats_reply(x, W.OFPST_FLOW, fe + S.flow_stats_entry(_EXACT, _MIXED_ACTIONS, table_id=1)), True)
+  T["stats_reply_flow0_more"] = (lambda x: S.stats_reply(x, W.OFPST_FLOW, b"", flags=W.OFPSF_REPLY_MORE), True)
+  T["stats_reply_aggregate"] = (lambda x: S.stats_reply(x, W.OFPST_AGGREGATE, S.aggregate_stats_body(1, 2, 3)), True)
+  for k in (0, 2):
+    T["stats_reply_table%d" % k] = ((lambda k: lambda x: S.stats_reply(x, W.OFPST_TABLE, b"".join(_table_stats_entry(i) for i in range(k))))(k), True)
+    T["stats_reply_port%d" % k] = ((lambda k: lambda x: S.stats_reply(x, W.OFPST_PORT, b"".join(S.port_stats_entry(i + 1) for i in range(k))))(k), True)
+    T["stats_reply_queue%d" % k] = ((lambda k: lambda x: S.stats_reply(x, W.OFPST_QUEUE, b"".join(_queue_stats_entry(1, i) for i in range(k))))(k), True)
+  for k in (0, 3):
+    T["stats_reply_vendor_data%d" % k] = ((lambda k: lambda x: S.stats_reply(x, W.OFPST_VENDOR, struct.pack("!L", OTHER_VENDOR) + _pat(k, 15)))(k), True)
+  T["queue_config_reply_queues0"] = (lambda x: _queue_get_config_reply(x, 1), True)
+  T["queue_config_reply_queue_noprops"] = (lambda x: _queue_get_config_reply(x, 1, _packet_queue(1)), True)
+  T["queue_config_reply_queue_propnone"] = (lambda x: _queue_get_config_reply(x, 1, _packet_queue(1, struct.pack("!HH4x", 0, 8))), True)
+  T["stats_reply_flow_allactions"] = (lambda x: S.stats_reply(x, W.OFPST_FLOW, S.flow_stats_entry(_EXACT, _ALL_ACTIONS)), True)
+  T["queue_config_reply_queue_minrate"] = (lambda x: _queue_get_config_reply(x, 1, _packet_queue(1) + _packet_queue(2, _qprop_min_rate(500))), True)
+  return T
+
+def _sweep_switch ():
+  T = _sweep_common()
+  T["features_request"] = (lambda x: W.features_request(x), True)
+  T["get_config_request"] = (lambda x: W.get_config_request(x), True)
+  T["set_config"] = (lambda x: W.set_config(x, 0, 128), True)
+  for a, acts in ((0, b""), (1, _OUT), (3, _MIXED_ACTIONS), (13, _ALL_ACTIONS)):
+    T["flow_mod_actions%d" % a] = ((lambda acts: lambda x: W.flow_mod(x, _EXACT, W.OFPFC_ADD, acts, priority=5, idle=6, hard=7, cookie=8))(acts), True)
+    for k in (0, 1, 60):
+      T["packet_out_actions%d_data%d" % (a, k)] = ((lambda acts, k: lambda x: W.packet_out(x, acts, _pat(k, 16), in_port=1))(acts, k), True)
+  T["packet_out_buffered"] = (lambda x: W.packet_out(x, _OUT, b"", buffer_id=5, in_port=1), True)
+  T["port_mod"] = (lambda x: W.port_mod(x, 1, b"\x02\0\0\0\0\x01", W.OFPPC_NO_FLOOD, W.OFPPC_NO_FLOOD), True)
+  T["stats_request_desc"] = (lambda x: W.stats_request(x, W.OFPST_DESC), True)
+  T["stats_request_flow"] = (lambda x: W.stats_request(x, W.OFPST_FLOW, W.flow_stats_body(_EXACT)), True)
+  T["stats_request_aggregate"] = (lambda x: W.stats_request(x, W.OFPST_AGGREGATE, W.flow_stats_body(_EXACT)), True)
+  T["stats_request_table"] = (lambda x: W.stats_request(x, W.OFPST_TABLE), True)
+  T["stats_request_port"] = (lambda x: W.stats_request(x, W.OFPST_PORT, W.port_stats_body(W.OFPP_NONE)), True)
+  T["stats_request_queue"] = (lambda x: W.stats_request(x, W.OFPST_QUEUE, W.queue_stats_body(W.OFPP_ALL, W.OFPQ_ALL)), True)
+  for k in (0, 3):
+    T["stats_request_vendor_data%d" % k] = ((lambda k: lambda x: W.stats_request(x, W.OFPST_VENDOR, struct.pack("!L", OTHER_VENDOR) + _pat(k, 17)))(k), True)
+  T["barrier_request"] = (lambda x: W.barrier_request(x), True)
+  T["queue_get_config_request"] = (lambda x: W.queue_get_config_request(x, 1), True)
+  return T
+
+SWEEP = {"controller-types": _sweep_ctrl(), "switch-types": _sweep_switch()}
+SWEEP_BEFORE = {"controller-types": "echo_request", "switch-types": "echo_request"}       # 12 bytes
+SWEEP_AFTER = {"controller-types": "barrier_reply", "switch-types": "barrier_request"}    # 8 bytes
+for _s, _base in (("controller-types", CTRL), ("switch-types", SWITCH)):
+  ALPHA[_s] = [(n, f) for n, (f, strict) in SWEEP[_s].items()] + [(n, f) for n, f in _base if n not in SWEEP[_s]]
+
+def loose_of (side, seq):
+  """Positions whose delivered object is compared by type and xid only."""
+  T = SWEEP.get(side, {})
+  return frozenset(i for i, n in enumerate(seq) if n in T and not T[n][1])
+
+
+# ---------------------------------------------------------------------------------------------------
+# handlers that raise: the receiver's answer to "what does the handler of delivery i do" is part of the environment
+# ---------------------------------------------------------------------------------------------------
+# Both readers call the handler inside a try block and carry on with the rest of the buffer when it raises
+# (Connection.read: bare except + log; OFConnection.read: ERR_EXCEPTION -> _error_handler logs).  The message WAS
+# delivered; what the property says about the messages around it does not depend on what the handler did with it.
+# Alphabet: three small messages (8 / 12 / 20 bytes; equal-length neighbours arise as repetitions).
+RAISING = {"controller-raising": ("barrier_reply", "echo_request", "error"),
+           "switch-raising": ("barrier_request", "echo_request", "packet_out_24")}
+ALPHA["controller-raising"] = [(n, f) for n, f in CTRL if n in RAISING["controller-raising"]]
+ALPHA["switch-raising"] = [(n, f) for n, f in SWITCH if n in RAISING["switch-raising"]] + \
+                          [("packet_out_24", lambda x: W.packet_out(x, _OUT, b"", buffer_id=5, in_port=1))]       # 24
+
+class HandlerRaised (Exception):
+  """What the scripted handler raises."""
+
+def raise_sets (n, every_subset):
+  """Which deliveries' handlers raise: each single position and all of them (thorough: every non-empty subset)."""
+  if every_subset:
+    return [c for k in range(1, n + 1) for c in itertools.combinations(range(n), k)]
+  out = [(i,) for i in range(n)]
+  if n > 1: out.append(tuple(range(n)))
+  return out
 SMALL_STREAM = 120          # streams up to this length get every 2-cut
 CHUNKS = list(range(1, 17)) + [2047, 2048, 2049]
 
@@ -149,6 +303,9 @@ class Recorder (object):
     self.log = []
     self.limit = 64
     self.runaway = False
+    self.raise_at = ()          # deliveries (by index) whose handler raises after the message has been recorded
+    self.raised = 0             # how many times it did
+    self.excused = 0            # switch side: ERR_EXCEPTION reports to expect for them (never demanded)
   def __call__ (self, con, msg):
     if len(self.log) >= self.limit:
       # of_01.Connection.read swallows whatever a handler raises (bare except) and carries on, so the way out of
@@ -159,6 +316,9 @@ class Recorder (object):
     try: packed = msg.pack()
     except Exception as e: packed = "pack raised %s: %s" % (type(e).__name__, e)
     self.log.append((getattr(msg, "header_type", None), getattr(msg, "xid", None), packed, type(msg).__name__))
+    if len(self.log) - 1 in self.raise_at:
+      self.raised += 1; self.excused += 1
+      raise HandlerRaised("scripted handler failure at delivery %d" % (len(self.log) - 1))
 
 
 def _nicira (on):
@@ -270,8 +430,11 @@ class SwitchEnd (object):
     self.used = False
     orig = self.conn._error_handler
     def eh (reason, info):
-      self.notes.append("error-handler-%s" % {1: "BAD_VERSION", 2: "NO_UNPACKER", 3: "BAD_LENGTH",
-                                                4: "EXCEPTION"}.get(reason, reason))
+      if reason == 4 and self.rec.excused > 0 and isinstance(info[0], HandlerRaised):
+        self.rec.excused -= 1             # the scripted handler failure being reported: owed, not a framing event
+      else:
+        self.notes.append("error-handler-%s" % {1: "BAD_VERSION", 2: "NO_UNPACKER", 3: "BAD_LENGTH",
+                                                  4: "EXCEPTION"}.get(reason, reason))
       return orig(reason, info)
     self.conn._error_handler = eh
     self.loop, self.gen = _make_ioloop(self.worker)     # sets worker.on_close / worker.pinger like the datapath's loop
@@ -301,8 +464,15 @@ class NiciraCtrlEnd (CtrlEnd):
   side = "controller-nicira"
   nicira = True
 
+class TypesCtrlEnd (CtrlEnd): side = "controller-types"
+class TypesSwitchEnd (SwitchEnd): side = "switch-types"
+class RaisingCtrlEnd (CtrlEnd): side = "controller-raising"
+class RaisingSwitchEnd (SwitchEnd): side = "switch-raising"
 
-ENDS = {"controller": CtrlEnd, "switch": SwitchEnd, "controller-nicira": NiciraCtrlEnd}
+
+ENDS = {"controller": CtrlEnd, "switch": SwitchEnd, "controller-nicira": NiciraCtrlEnd,
+        "controller-types": TypesCtrlEnd, "switch-types": TypesSwitchEnd,
+        "controller-raising": RaisingCtrlEnd, "switch-raising": RaisingSwitchEnd}
 
 
 def reusable (end):
@@ -313,6 +483,7 @@ def reusable (end):
     if any(h is not end.rec for h in end.con.handlers): return False
   elif end.conn.on_message_received is not end.rec: return False
   del end.log[:]
+  end.rec.raise_at = (); end.rec.raised = 0; end.rec.excused = 0
   return True
 
 
@@ -348,9 +519,10 @@ def _site (tb, src):
   return site or "outside-pox"
 
 
-def run_case (side, msgs, kind, arg, src="/repo", trace=None, end=None):
+def run_case (side, msgs, kind, arg, src="/repo", trace=None, end=None, loose=(), raises=()):
   """Returns (violation or None, profile, nreads, states).  violation = (key, what).
-  end=None builds a fresh receiver; otherwise `end` must be a receiver for which reusable() holds."""
+  end=None builds a fresh receiver; otherwise `end` must be a receiver for which reusable() holds.
+  loose: positions compared by type and xid only; raises: deliveries whose (recording) handler raises."""
   n = len(msgs)
   stream = b"".join(msgs)
   ends = list(itertools.accumulate(len(m) for m in msgs))
@@ -368,6 +540,7 @@ def run_case (side, msgs, kind, arg, src="/repo", trace=None, end=None):
                  "not complete the handshake (%s)" % e), profile, nreads, states
   log = end.log
   end.rec.limit = n + 8
+  end.rec.raise_at = frozenset(raises); end.rec.raised = 0; end.rec.excused = 0
   queued = 0
   for seg in segments(stream, kind, arg):
     it = end.feed(seg)
@@ -405,7 +578,9 @@ def run_case (side, msgs, kind, arg, src="/repo", trace=None, end=None):
       while checked < len(log):
         typ, xid, packed, cname = log[checked]
         ver, etyp, elen, exid = hdrs[checked]
-        if packed != msgs[checked]:
+        if checked in loose and (typ, xid) == (etyp, exid) and isinstance(packed, bytes):
+          pass          # delivered as the right message; its bytes are not kept by design (a HELLO's body is skipped)
+        elif packed != msgs[checked]:
           plen = len(packed) if isinstance(packed, bytes) else None
           if (typ, xid, plen) == (etyp, exid, elen):
             clause, what = "corrupt", "delivered message %d (%s) has the right type/xid/length but re-packs to different bytes" % (checked, cname)
@@ -530,6 +705,33 @@ def cases_for (lens, threecuts):
   P = list(range(1, L)) if L <= SMALL_STREAM else interesting(lens)
   for c in itertools.combinations(P, 2): yield ("cuts", c)
   if threecuts:
+    for c in itertools.combinations(critical(lens), 3): yield ("cuts", c)
+
+
+def sweep_cases (lens, deep):
+  """Type sweep: unsegmented, every 1-cut, every fixed read size, every 2-cut over the header-critical positions
+  (deep: over P / all for short streams, and every 3-cut over the header-critical positions)."""
+  L = sum(lens)
+  yield ("cuts", ())
+  for p in range(1, L): yield ("cuts", (p,))
+  for k in CHUNKS:
+    if k < L: yield ("chunk", k)
+  P = critical(lens) if not deep else list(range(1, L)) if L <= SMALL_STREAM else interesting(lens)
+  for c in itertools.combinations(P, 2): yield ("cuts", c)
+  if deep:
+    for c in itertools.combinations(critical(lens), 3): yield ("cuts", c)
+
+
+def raising_cases (lens, deep):
+  """Raising handlers: unsegmented, every 1-cut, read sizes 1..16, every 2-cut (deep: and every 3-cut over the
+  header-critical positions)."""
+  L = sum(lens)
+  yield ("cuts", ())
+  for p in range(1, L): yield ("cuts", (p,))
+  for k in range(1, 17):
+    if k < L: yield ("chunk", k)
+  for c in itertools.combinations(range(1, L), 2): yield ("cuts", c)
+  if deep:
     for c in itertools.combinations(critical(lens), 3): yield ("cuts", c)
 
 
@@ -1040,16 +1242,24 @@ def _worker (item):
   if side == "switch-reconnect": return _worker_reconnect(item)
   _guards()
   rep = Report(PID, "model_checking")
+  for r in (raise_sets(len(seq), threecuts) if side.endswith("-raising") else [()]):
+    _run_item(rep, side, seq, threecuts, src, r)
+  return rep
+
+
+def _run_item (rep, side, seq, threecuts, src, raises):
   msgs = build(side, seq)
   lens = [len(m) for m in msgs]
   for m in msgs:
     ver, typ, ln, xid = W.parse_hdr(m)
-    if ver != 1 or ln != len(m):
+    if (ver != 1 and not (typ == W.HELLO and side == "controller-types")) or ln != len(m):
       rep.error("alphabet message is not well-formed: %r" % (seq,)); return rep
   states = set()
   first = True
   end = None
-  for kind, arg in cases_for(lens, threecuts):
+  loose = loose_of(side, seq)
+  gen = sweep_cases if side.endswith("-types") else raising_cases if side.endswith("-raising") else cases_for
+  for kind, arg in gen(lens, threecuts):
     # unsegmented, 1-cut and fixed-read-size cases: a fresh receiver each.  2-/3-cut cases: the work item's
     # receiver is reused while it is verifiably back in the initial framing state; a violation seen on a reused
     # receiver is only reported if a fresh receiver shows it too (otherwise the reuse argument is broken: error).
@@ -1060,9 +1270,9 @@ def _worker (item):
     multi = multi and end is not None
     reused = multi and end.used
     if multi: end.used = True
-    v, profile, nreads, st = run_case(side, msgs, kind, arg, src, end=end if multi else None)
+    v, profile, nreads, st = run_case(side, msgs, kind, arg, src, end=end if multi else None, loose=loose, raises=raises)
     if v and reused:
-      v2 = run_case(side, msgs, kind, arg, src)[0]
+      v2 = run_case(side, msgs, kind, arg, src, loose=loose, raises=raises)[0]
       if v2 is None or v2[0] != v[0]:
         rep.error("violation %s on a reused receiver not reproduced on a fresh one (%r)" % (v[0], v2 and v2[0]))
       v = v2
@@ -1070,16 +1280,17 @@ def _worker (item):
     rep.evaluations += 1
     rep.transitions += nreads
     states |= st
-    rep.outcome((side, seq, tuple(profile), v and v[0]))
+    rep.outcome((side, seq, raises, tuple(profile), v and v[0]) if raises else (side, seq, tuple(profile), v and v[0]))
+    data = dict(side=side, seq=list(seq), kind=kind, arg=list(arg) if kind == "cuts" else arg)
+    if raises: data["raises"] = list(raises)
     if v:
-      rep.violation(v[0], v[1] + " [sequence %s, %s %r]" % (_seqtext(seq), kind, list(arg) if kind == "cuts" else arg),
-                    dict(side=side, seq=list(seq), kind=kind, arg=list(arg) if kind == "cuts" else arg))
+      rep.violation(v[0], v[1] + " [sequence %s%s, %s %r]" % (_seqtext(seq), (", the handler of deliveries %s raises" % list(raises)) if raises else "",
+                                                            kind, data["arg"]), data)
     elif kind == "cuts" and len(arg) == 2 and first and len(seq) > 1:
       first = False
       rep.sample(dict(side=side, sequence=list(seq), lengths=lens, cuts=list(arg), reads=nreads,
-                      delivered_after_bytes=[list(p) for p in profile]))
+                      delivered_after_bytes=[list(p) for p in profile], **({"handler_raises_at": list(raises)} if raises else {})))
   rep.state_count += len(states)
-  return rep
 
 
 def run (cfg):
@@ -1089,6 +1300,7 @@ def run (cfg):
   maxlen = cfg.pick(2, 3)
   threecuts = not cfg.quick
   livelen = cfg.pick(2, 3)
+  raiselen = cfg.pick(3, 4)
   rep = Report(PID, "model_checking")
   rep.rule = ("both receivers (controller of_01.Connection.read after a completed handshake; switch RecocoIOWorker._do_recv -> "
               "OFConnection.read), handlers replaced by recorders; every sequence of 1..%d messages over the side's alphabet "
@@ -1116,18 +1328,47 @@ def run (cfg):
               "the HP-style error) of {%s}; "
               "unsegmented, one message per read, every 1-cut, the fixed read sizes, every 2-cut over P; observed = nexus events "
               "(ConnectionUp, PacketIn, PortStatus, BarrierIn, FlowRemoved with the re-packed message) and the connection's "
-              "writes, compared after every read with what the complete messages owe (computed from the message list)"
+              "writes, compared after every read with what the complete messages owe (computed from the message list). "
               % (maxlen, ", ".join("%s(%d)" % (n, len(f(1))) for n, f in CTRL),
                  ", ".join("%s(%d)" % (n, len(f(1))) for n, f in SWITCH), CHUNKS, SMALL_STREAM,
                  ", every 3-cut over the header-critical positions {0,1,3,4,7,8 bytes into a message, its last byte}" if threecuts else "",
                  "/".join(str(n) for n in JUMBO_SIZES), list(JUMBO_CHUNKS),
                  " | ".join("+".join(a) for a in RECONNECT_A), " | ".join("+".join(b) for b in RECONNECT_B),
                  " / ".join(LIVE_FINISH), livelen, ", ".join(n for n, f in LIVE_TAIL)))
+  rep.rule += ("controller-types / switch-types (type sweep): every OpenFlow 1.0 message type the side can legally be sent, in each "
+              "length form of a list (controller %d forms: %s; switch %d forms: %s) - among them a HELLO with a 1/4/7/8/16-byte "
+              "body (spec 5.5.1; controller also the version-4 HELLO with and without a version bitmap that Connection.read admits), "
+              "ECHO/ERROR/VENDOR/PACKET_IN/PACKET_OUT with 0 data bytes, stats replies with 0 entries, action lists of 0/1/3/13 "
+              "actions (every action type, 8- and 16-byte) - each form X in the streams X+%s and %s+X+%s%s: unsegmented, every 1-cut, the fixed "
+              "read sizes, every 2-cut over %s; HELLO-with-body deliveries are compared by type and xid (libopenflow skips the body), "
+              "everything else by re-packed bytes. controller-raising / switch-raising: the recorder installed as handler RAISES "
+              "after recording for a chosen set of deliveries (%s); every sequence of 1..%d messages over {%s} / {%s}: "
+              "unsegmented, every 1-cut, read sizes 1..16, every 2-cut%s; same oracle (the failing delivery counts as delivered, every "
+              "other message must still be delivered once, in order, for every segmentation)"
+              % (len(SWEEP["controller-types"]), ", ".join("%s(%d)" % (n, len(f(1))) for n, (f, st) in SWEEP["controller-types"].items()),
+                 len(SWEEP["switch-types"]), ", ".join("%s(%d)" % (n, len(f(1))) for n, (f, st) in SWEEP["switch-types"].items()),
+                 "barrier", "echo_request", "barrier", "" if cfg.quick else ", X+X, X+X+barrier",
+                 "the header-critical positions {0,1,3,4,7,8 bytes into a message, its last byte}" if cfg.quick else
+                 "P (all when L <= %d), every 3-cut over the header-critical positions" % SMALL_STREAM,
+                 "each single position, and all positions" if cfg.quick else "every non-empty subset of positions",
+                 raiselen, ", ".join("%s(%d)" % (n, len(f(1))) for n, f in ALPHA["controller-raising"]),
+                 ", ".join("%s(%d)" % (n, len(f(1))) for n, f in ALPHA["switch-raising"]),
+                 "" if cfg.quick else ", every 3-cut over the header-critical positions"))
   rep.bound = dict(max_messages=maxlen, cuts="all 1-cuts; 2-cuts over P (all when L<=%d)%s; fixed read sizes"
                    % (SMALL_STREAM, "; 3-cuts over critical positions" if threecuts else ""),
-                   alphabet=dict(controller=len(CTRL), switch=len(SWITCH)), live_tail_messages=livelen)
-  rep.assumptions = ["well-formed OpenFlow 1.0 messages only (malformed input is C10)",
-                     "handlers are recorders: what a handler does with a delivered message is outside this property",
+                   alphabet=dict(controller=len(CTRL), switch=len(SWITCH)), live_tail_messages=livelen,
+                   type_sweep_forms=dict(controller=len(SWEEP["controller-types"]), switch=len(SWEEP["switch-types"])),
+                   raising_handler_max_messages=raiselen,
+                   raising_handler_sets="single positions + all" if cfg.quick else "every non-empty subset")
+  rep.assumptions = ["well-formed OpenFlow 1.0 messages only (malformed input is C10); well-formed includes the legal forms pox "
+                     "never sends itself: a HELLO with a body, and on the controller side a HELLO of another version (admitted by "
+                     "Connection.read by design; the switch side answers another version with HELLO_FAILED and closes, which is "
+                     "version negotiation, not framing, and is not exercised)",
+                     "handlers are recorders: what a handler does with a delivered message is outside this property - except "
+                     "that in the -raising harnesses the recorder raises an Exception after recording (a handler that closes "
+                     "the connection or re-enters read() is not modelled: the statement is silent on what follows a close)",
+                     "switch-raising: the ERR_EXCEPTION report of OFConnection._error_handler for a scripted handler failure is "
+                     "expected and not counted as the receiver giving up; whether it is made is not demanded",
                      "a complete message that is delivered only by a later read is not flagged as long as everything is delivered, "
                      "in order, by the end of the stream (the statement constrains early delivery, loss, merging; not promptness)",
                      "2-/3-cut cases reuse the work item's receiver once it is verifiably back in the initial framing state "
@@ -1169,6 +1410,19 @@ def run (cfg):
         items.append(("controller-nicira", seq, threecuts, cfg.pox_src))
   # heavy streams first so the pool drains evenly (order only; every item is run)
   items.sort(key=lambda it: -sum(len(m) for m in build(it[0], it[1])))
+  # type sweep: every (type, length form) of the side, first in the stream and between two ordinary messages
+  for side in ("controller-types", "switch-types"):
+    if cfg.only and cfg.only != side: continue
+    b, a = SWEEP_BEFORE[side], SWEEP_AFTER[side]
+    for name in SWEEP[side]:
+      forms = [(name, a), (b, name, a)] + ([] if cfg.quick else [(name, name), (name, name, a)])
+      for seq in forms: items.append((side, seq, threecuts, cfg.pox_src))
+  # raising handlers: every sequence over the three small messages, each raise set
+  for side in ("controller-raising", "switch-raising"):
+    if cfg.only and cfg.only != side: continue
+    for k in range(1, raiselen + 1):
+      for seq in itertools.product(RAISING[side], repeat=k):
+        items.append((side, seq, threecuts, cfg.pox_src))
   if not cfg.only or cfg.only == "switch-reconnect":
     for aseq in RECONNECT_A:
       for bseq in RECONNECT_B:
@@ -1214,8 +1468,11 @@ def replay (cfg, data):
     return bool(v), "\n".join(lines)
   msgs = build(side, seq)
   trace = []
-  v, profile, nreads, st = run_case(side, msgs, kind, tuple(arg) if kind == "cuts" else arg, cfg.pox_src, trace=trace)
-  lines = ["%s side, sequence %s (%d bytes), %s %r" % (side, _seqtext(seq), sum(len(m) for m in msgs), kind, arg)]
+  raises = tuple(data.get("raises", ()))
+  v, profile, nreads, st = run_case(side, msgs, kind, tuple(arg) if kind == "cuts" else arg, cfg.pox_src, trace=trace,
+                                    loose=loose_of(side, seq), raises=raises)
+  lines = ["%s side, sequence %s (%d bytes)%s, %s %r" % (side, _seqtext(seq), sum(len(m) for m in msgs),
+                                                        (", the handler of deliveries %s raises" % list(raises)) if raises else "", kind, arg)]
   lines += trace[:40] + (["... (%d reads)" % len(trace)] if len(trace) > 40 else [])
   lines.append("=> %s" % (("%s: %s" % v) if v else "delivered exactly the sent sequence, buffer empty"))
   return bool(v), "\n".join(lines)
